@@ -110,7 +110,9 @@ def run_model(module: str, cfg: str = None, workdir: str = None, workers=16, dum
     """Run TLC on a bounded model.  Returns stats, raw output, violated flag."""
     cfg = cfg or module
     meta = os.path.join(workdir, "meta-" + cfg)
-    args = ["-workers", str(workers), "-metadir", meta, "-noGenerateSpecTE", "-coverage", "1",
+    # no -coverage: it multiplies the run time of invariant-heavy models by 4; which actions / vector kinds were
+    # exercised is measured from the dumped graph instead (harness/replay.py extractors)
+    args = ["-workers", str(workers), "-metadir", meta, "-noGenerateSpecTE",
             "-config", os.path.join(SPEC, cfg + ".cfg")]
     if dump:
         args += ["-dump"] + (["dot,actionlabels"] if dump_kind == "dot" else []) + [dump]
